@@ -104,7 +104,11 @@ func (r *runner) modelState() []string {
 // than the one the running check reports are only counted. fatal stops the
 // case (the model can no longer follow the database).
 func (r *runner) fail(prop, sig, what string, extra map[string]any, fatal bool) {
-	if fatal {
+	// A fatal violation ends the case: model and store have diverged. Exception: a violation of a
+	// sibling property that no recorded finding explains (never seen on the unchanged tree, where the
+	// sibling check itself would fail) does not end it, so that this property's own rules still get
+	// to judge the requests that follow (e.g. a commit acknowledged after the lock rules were broken).
+	if fatal && (prop == r.prop || strings.Contains(sig, "tainted:")) {
 		r.stop = true
 	}
 	if r.seenSig[sig] {
